@@ -190,7 +190,7 @@ PROPS = {
         "assumptions": ["join futures are awaited to completion once polled (a pending join future that is dropped and a second join polled while the first is pending are outside the generated programs: finding F6)"],
     },
     "C06": {
-        "families": [("faults", 1200, 30000), ("children", 400, 10000), ("broker", 400, 8000)],
+        "families": [("faults", 1200, 30000), ("children", 400, 10000), ("broker", 400, 8000), ("restart", 300, 8000)],
         "monitors": ["C03", "C14"],
         "theorems": ["C06_containment", "C06_dead_is_silent", "C06_seen_as_stopped", "C06_terminated_actor_stays_contained", "C06_terminated_actor_is_silent"],
         "nontrivial": nt_c06,
@@ -257,7 +257,7 @@ PROPS = {
         "assumptions": ["completeness of one broadcast (one submission per registered child of the type) is checked by the search acceptor on every implementation trace, not proved: the model fixes the target of the i-th submission but not the number of submissions"],
     },
     "C05": {
-        "families": [("handles", 1000, 25000), ("mailbox", 200, 6000), ("timers", 200, 6000), ("registry", 300, 8000), ("children", 200, 6000), ("restart-bp", 400, 8000)],
+        "families": [("handles", 1000, 25000), ("mailbox", 200, 6000), ("timers", 200, 6000), ("registry", 300, 8000), ("children", 200, 6000), ("restart-bp", 400, 8000), ("streams", 300, 8000)],
         "monitors": ["C03", "C05"],
         "theorems": ["C05_strong_counted_weak_not", "C05_drop_gives_back", "C05_upgrade_iff_strong_reference", "C05_last_drop_drains_then_stops", "C05_accounting_invariant", "C05_strong_handle_keeps_alive", "C05_no_exit_while_strongly_held", "C05_registry_keeps_alive", "C05_no_resurrection", "C05_upgrade_fails_for_ever", "C05_discipline_refines_the_model", "C05_nothing_left_undone_when_the_run_ends"],
         "nontrivial": nt_c05,
